@@ -26,6 +26,7 @@ type RealClient struct {
 	tconn  *TCPConn // control connection when the server listens on TCP
 	Cli    *turn.Client
 	Relay  net.PacketConn
+	OldRelay net.PacketConn // the socket of the allocation before the current one (closed by the application)
 	Err    error
 	Closed bool
 	ClosedAt int64
@@ -197,6 +198,7 @@ func (w *SrvWorld) execReal(rc *RealClient, op *Op) {
 				}
 				rc.gaps = append(rc.gaps, [2]int64{closedAt, w.K.Now()})
 				rc.Closed = false
+				rc.OldRelay = rc.Relay
 				w.K.Stats.Probe("e2e_reallocated")
 			}
 			rc.Relay, rc.Err = conn, err
@@ -249,6 +251,16 @@ func (w *SrvWorld) execReal(rc *RealClient, op *Op) {
 			wr.Err, wr.Done = err, true
 			w.e2eMu.Unlock()
 		})
+	case "close_old":
+		// Close, once more, of the relayed socket the application closed before it allocated
+		// again (a deferred Close): it is closed already, and none of the new socket's business
+		w.e2eMu.Lock()
+		old := rc.OldRelay
+		w.e2eMu.Unlock()
+		if old != nil {
+			w.K.Stats.Probe("e2e_old_socket_closed_again")
+			w.lib("close-old", func() { _ = old.Close() })
+		}
 	case "close_relay":
 		if relay == nil {
 			return
